@@ -36,7 +36,7 @@ struct C20 : Property
 	std::vector<std::string> probes() const override
 	{
 		return {"read.exactly_buffer_size", "read.final_short_read_of_1", "read.multiple_buffers", "write.loop_more_than_one_iteration", "write.bytewise", "error.first_call", "error.middle_call",
-		        "error.last_call", "open.failure", "alloc.failure_inside_from_fd", "alloc.failure_inside_to_fd", "parse.error_reported", "depth.limit_applied", "depth.limit_above_default_used", "to_file.closes_once_on_error", "write.failure_with_message"};
+		        "error.last_call", "open.failure", "alloc.failure_inside_from_fd", "alloc.failure_inside_to_fd", "parse.error_reported", "depth.limit_applied", "depth.limit_above_default_used", "to_file.closes_once_on_error", "write.failure_with_message", "read.descriptor_not_at_offset_0"};
 	}
 	std::map<std::string, int64_t> cfg_defaults() const override { return {{"sched", 0}}; }
 
@@ -93,7 +93,7 @@ struct C20 : Property
 			api = 4; // the depth argument only exists on json_object_from_fd_ex
 		// errno is a hidden input of the calling thread: whatever an earlier, unrelated call left there must not matter
 		static const int stale[] = {0, 0, EINTR, EAGAIN, ENOMEM, EIO, EBADF};
-		t.a = {api, arg1, (int64_t)r.below(4), (int64_t)r.below(100000), stale[r.below(7)], (int64_t)(r.below(3) == 0)}; // last: the descriptor is a pipe (fstat size 0, lseek ESPIPE) instead of a regular file
+		t.a = {api, arg1, (int64_t)r.below(4), (int64_t)r.below(100000), stale[r.below(7)], (int64_t)(r.below(3) == 0), (int64_t)(r.chance(1, 4) ? r.below(6) : 0)}; // last but one: the descriptor is a pipe (fstat size 0, lseek ESPIPE) instead of a regular file
 		p.ops.push_back(t);
 		return p;
 	}
@@ -165,6 +165,10 @@ struct C20 : Property
 		e.kind = names[api];
 		g_fd.reset_run();
 		g_fd.as_fifo = op.arg(5) == 1;
+		// file names are data: one that contains printf conversions must come out of every message path unharmed (a message built
+		// by using the name as a format string reads or writes through garbage pointers)
+		const char *in_path = (op.arg(6) & 1) ? "/jsim/in%s%n%d.json" : "/jsim/in.json";
+		const char *out_path = (op.arg(6) & 1) ? "/jsim/out%s%n%5$s.json" : "/jsim/out.json";
 		// sentinel message so that "a new message" is observable
 		(void)LIB(json_object_to_fd(1, nullptr, 0)); // documented failure: sets "json_object_to_fd: object is null"
 		std::string sentinel = json_util_get_last_err() ? json_util_get_last_err() : "";
@@ -195,7 +199,7 @@ struct C20 : Property
 			std::string before = text;
 			int fd = -1;
 			if (api == 0)
-				fd = g_fd.open_sim("/jsim/out.json", false, true, true, true);
+				fd = g_fd.open_sim(out_path, false, true, true, true);
 			e.ran = true;
 			arm_faults(armed, ctx);
 			int rc;
@@ -203,9 +207,9 @@ struct C20 : Property
 			if (api == 0)
 				rc = LIB(json_object_to_fd(fd, obj, flags));
 			else if (api == 1)
-				rc = LIB(json_object_to_file("/jsim/out.json", obj));
+				rc = LIB(json_object_to_file(out_path, obj));
 			else
-				rc = LIB(json_object_to_file_ext("/jsim/out.json", obj, flags));
+				rc = LIB(json_object_to_file_ext(out_path, obj, flags));
 			e.ncalls = g_fd.writes;
 			e.nalloc = g_alloc.op_count;
 			e.fired = g_alloc.fired;
@@ -214,7 +218,7 @@ struct C20 : Property
 			disarm_faults();
 			e.failed = rc != 0;
 			e.result = "rc=" + std::to_string(rc);
-			e.file = g_fd.files.count("/jsim/out.json") ? g_fd.files["/jsim/out.json"] : std::string("<no file>");
+			e.file = g_fd.files.count(out_path) ? g_fd.files[out_path] : std::string("<no file>");
 			const char *msg = json_util_get_last_err();
 			e.errmsg = msg ? msg : "";
 			if (rc == 0)
@@ -270,7 +274,10 @@ struct C20 : Property
 		else
 		{
 			// ---------------------------------------------------------------- read side
-			g_fd.files["/jsim/in.json"] = text;
+			// a descriptor is read from its CURRENT offset (documented for json_object_from_fd): bytes before it are not part of the document
+			static const char *prefixes[3] = {"", "[1,2] ", "}}x\"\\"};
+			std::string prefix = api != 5 ? prefixes[(op.arg(6) >> 1) % 3] : "";
+			g_fd.files[in_path] = prefix + text;
 			int depth = (int)op.arg(1, -1);
 			if (depth == 0 || depth < -1)
 				depth = -1;
@@ -279,7 +286,12 @@ struct C20 : Property
 			int eff_depth = (api == 4 && depth != -1) ? depth : JSON_TOKENER_DEFAULT_DEPTH;
 			int fd = -1;
 			if (api != 5)
-				fd = g_fd.open_sim("/jsim/in.json", true, false, false, false);
+				fd = g_fd.open_sim(in_path, true, false, false, false);
+			if (fd >= 0 && !prefix.empty())
+			{
+				g_fd.fds[fd].pos = prefix.size();
+				ctx.probe("read.descriptor_not_at_offset_0");
+			}
 			e.ran = true;
 			arm_faults(armed, ctx);
 			struct json_object *o;
@@ -289,7 +301,7 @@ struct C20 : Property
 			else if (api == 4)
 				o = LIB(json_object_from_fd_ex(fd, depth));
 			else
-				o = LIB(json_object_from_file("/jsim/in.json"));
+				o = LIB(json_object_from_file(in_path));
 			e.ncalls = g_fd.reads;
 			e.nalloc = g_alloc.op_count;
 			e.fired = g_alloc.fired;
